@@ -498,6 +498,59 @@ theorem multi_core_exit_never_raises (papply : P → Assoc K V → Assoc K V) (t
         · split <;> exact hE
   exact gen t _ (inv_initT truthy) (by intro e he; cases he)
 
+/-! ### tasks the LIBRARY creates: coroutine sinks (`AsyncSink.write`)
+
+A coroutine sink's body is user code that may itself use `contextualize()` and log.  Which execution context
+its task runs in is regenerated from `AsyncSink.write` (`Gen.sinkTaskContext`). -/
+
+/-- the context id the next sink task runs in, and the state after its creation, by an emitter in context `c`
+(`shared0` = the one context captured when the handler was added) -/
+def sinkTask (papply : P → Assoc K V → Assoc K V) (mode : TaskCtx) (s : State K V P) (c shared0 : Nat) :
+    State K V P × Nat :=
+  match mode with
+  | .copyOfCaller => (step papply s c (.spawn true), s.cv.n)
+  | .shared => (s, shared0)
+
+/-- `sink_task_gets_own_context`: the task `AsyncSink.write` creates runs in a NEW execution context (distinct
+from every existing one – the emitter's, other sink tasks', user tasks') that starts as a copy of the emitting
+call's context layer (a task "created inside" the emitter's blocks), with no open block of its own. -/
+theorem sink_task_gets_own_context (papply : P → Assoc K V → Assoc K V) (s : State K V P) (c shared0 : Nat) :
+    let r := sinkTask papply Gen.sinkTaskContext s c shared0
+    r.2 = s.cv.n ∧ r.1.cv.n = s.cv.n + 1 ∧ r.1.stacks r.2 = [] ∧ ctxGet r.1 r.2 = ctxGet s c := by
+  have h := spawn_inherits papply s c true
+  refine ⟨by simp [sinkTask, Gen.sinkTaskContext], ?_, ?_, ?_⟩
+  · simpa [sinkTask, Gen.sinkTaskContext] using h.1
+  · simpa [sinkTask, Gen.sinkTaskContext] using h.2.1
+  · simpa [sinkTask, Gen.sinkTaskContext] using h.2.2.1
+
+/-- `sink_tasks_isolated`: two tasks created by the library for two messages run in different contexts, so by
+`isolation` whatever one of them does (enter, leave, raise, log, spawn…) in any interleaving never changes the
+context layer or the open blocks the other – or the emitter – observes. -/
+theorem sink_tasks_isolated (papply : P → Assoc K V → Assoc K V) (s : State K V P) (c1 c2 sh : Nat)
+    (t : List (Nat × Op K V P)) :
+    let r1 := sinkTask papply Gen.sinkTaskContext s c1 sh
+    let r2 := sinkTask papply Gen.sinkTaskContext r1.1 c2 sh
+    r1.2 ≠ r2.2 ∧
+    ((∀ e ∈ t, e.1 = r1.2) → ∀ b, b ≠ r1.2 → b < r2.1.cv.n →
+      ctxGet (run papply r2.1 t) b = ctxGet r2.1 b ∧ (run papply r2.1 t).stacks b = r2.1.stacks b) := by
+  have h1 := sink_task_gets_own_context papply s c1 sh
+  have h2 := sink_task_gets_own_context papply (sinkTask papply Gen.sinkTaskContext s c1 sh).1 c2 sh
+  refine ⟨by rw [h1.1, h2.1, h1.2.1]; omega, ?_⟩
+  intro ht b hb hlt
+  have := isolation papply t (sinkTask papply Gen.sinkTaskContext (sinkTask papply Gen.sinkTaskContext s c1 sh).1 c2 sh).1
+    b hlt (fun e he => by rw [ht e he]; exact fun h => hb h.symm)
+  exact ⟨this.1, this.2.1⟩
+
+/-- refutation of the shared shape (`create_task(coro, context=<one stored Context>)`): all tasks of the handler
+run in ONE context, and a value one of them sets with `contextualize()` is what the next one reads -/
+theorem shared_sink_context_refuted (papply : P → Assoc K V → Assoc K V) (s : State K V P) (c1 c2 sh : Nat)
+    (k : K) (v : V) :
+    (sinkTask papply .shared s c1 sh).2 = (sinkTask papply .shared s c2 sh).2 ∧
+    get? (ctxGet (step papply s sh (.enter [(k, v)])) sh) k = some v := by
+  refine ⟨rfl, ?_⟩
+  simp [step, ctxGet, ContextVars.get, ContextVars.set, ctxExtra, Gen.ctxOperands, List.foldl, srcVal, get?_merge,
+    get?_cons]
+
 /-! ### keyword arguments of the logging call: lazy evaluation, capture, `record` injection
 
 `Context/Kwargs.lean` interprets the three statements of `_log` in their regenerated order `Gen.kwStages`. -/
